@@ -144,6 +144,29 @@ pub fn c12_predicate(w: &World, dump: &PoolDump, ch: &Change, before: Option<&Po
                 if anc.len() + 1 > dump.max_ancestors_count && pe.status != Status::Pending {
                     sig = Some(SIG_F12);
                 }
+                // the same defect when the re-add fails for a reason that cannot be recomputed from the dump
+                // (the pool's recorded ancestor counts are stale, F3): the parent was proposed / in the gap,
+                // its proposal has left the window (so remove_by_detached_proposal took it out with its
+                // descendants and offered all of them to add_pending), and only the parent is gone
+                // it, or one of its pooled ancestors before this update (remove_by_detached_proposal removes an entry
+                // WITH its descendants), was proposed / in the gap and its proposal has left the window
+                if sig.is_none() && snap.get_transaction_info(&ph).is_none() {
+                    if let Some(bd) = before {
+                        let bh: HashMap<Byte32, &EntryDump> = bd.entries.iter().map(|e| (e.tx_hash.clone(), e)).collect();
+                        let mut seen: HashSet<Byte32> = HashSet::new();
+                        let mut stack = vec![ph.clone()];
+                        let mut left_window = false;
+                        while let Some(h) = stack.pop() {
+                            if !seen.insert(h.clone()) { continue; }
+                            if let Some(e) = bh.get(&h) {
+                                let pid = ckb_types::packed::ProposalShortId::from_tx_hash(&h);
+                                if e.status != Status::Pending && !view.set().contains(&pid) && !view.gap().contains(&pid) { left_window = true; break; }
+                                stack.extend(e.inputs.iter().chain(e.related_deps.iter()).map(|op| op.tx_hash()));
+                            }
+                        }
+                        if left_window { sig = Some(SIG_F12); }
+                    }
+                }
             }
         }
         if let Some(s) = sig {
